@@ -25,7 +25,7 @@ var c07Specs = []famSpec{
 func init() {
 	register(&run.Prop{
 		ID: "C07",
-		Rule: "case = float64 inputs (random decimals with 0-10 fractional digits, ties k+0.5*10^-p, negatives, integers) + precision p in [-8,8] (float-precision: p in [-12,12]) + one family of D entry points: boolean ops and wrappers, PolyTreeD, ClipperD methods incl. the ScaleFunc variants, InflatePathsD, MinkowskiSumD/DiffD, RectClip(Lines)PathsD/PathD, TrimCollinearD. " +
+		Rule: "case = float64 inputs (random decimals with 0-10 fractional digits, ties k+0.5*10^-p, negatives, integers) + precision p in [-8,8] (float-precision: p in [-12,12]) + one family of D entry points: boolean ops and wrappers, PolyTreeD, open subject lines through ClipperD.ExecuteOC / ExecuteWithScaleFunc / ExecutePolyTreeD, ClipperD methods incl. the ScaleFunc variants, InflatePathsD, MinkowskiSumD/DiffD, RectClip(Lines)PathsD/PathD, TrimCollinearD. " +
 			"Checked: the library's quantisation q of every input coordinate satisfies |q - x*10^p| <= 0.5 (+1 ulp) against big.Float arithmetic; the D result multiplied back by 10^p and rounded equals, integer for integer, the 64-bit function applied to q (scalars delta/arc tolerance multiplied by 10^p, rectangles quantised like coordinates); " +
 			"p outside [-8,8] panics with exactly ErrPrecisionRange, p inside does not panic. Non-trivial = non-empty result with >= 1 coordinate that is not an integer before scaling back; distinct by input digest.",
 		Assumptions: []string{"the 64-bit functions are the reference (differential monitor); their own correctness is C01/C05/C06/C08/C11/C15's business", "coordinates are kept below 2^29 after scaling so that float64 products x*10^p are exact to < 1e-6"},
@@ -328,6 +328,49 @@ func c07Run(ctx *run.Ctx, id run.CaseID) {
 		if ctx.Guard(c.digest, "UnionPathsD", c.in, func() { gu = clip.UnionPathsD(sD, fr, p) }) {
 			ctx.Eval(1)
 			c.same("UnionPathsD/"+frName(fr), gu, clip.UnionPaths64(sq, fr))
+		}
+		// open subject lines through every engine entry point that returns an open solution
+		{
+			lD := floatPaths(r, p, 1+r.Intn(2), 5)
+			lq := c.quant("open", lD)
+			if lq != nil {
+				var wantC, wantO Paths
+				var gC1, gO1, gC2, gO2, gO3 clip.PathsD
+				if ctx.Guard(c.digest, "ClipperD/open", c.in, func() {
+					e64 := clip.NewClipper64()
+					e64.AddPaths(lq, clip.Subject, true)
+					e64.AddPaths(sq, clip.Subject, false)
+					if cq != nil {
+						e64.AddPaths(cq, clip.Clip, false)
+					}
+					wantC, wantO = Paths{}, Paths{}
+					e64.ExecuteOC(ct, fr, &wantC, &wantO)
+					mk := func() interface {
+						ExecuteOC(clip.ClipType, clip.FillRule, *clip.PathsD, *clip.PathsD) bool
+						ExecuteWithScaleFunc(clip.ClipType, clip.FillRule, *clip.PathsD, *clip.PathsD, func(Path, float64) clip.PathD) bool
+						ExecutePolyTreeD(clip.ClipType, clip.FillRule, *clip.PolyTreeD, *clip.PathsD) bool
+					} {
+						e := clip.NewClipperD(p)
+						e.AddPaths(lD, clip.Subject, true)
+						e.AddPaths(sD, clip.Subject, false)
+						if cD != nil {
+							e.AddPaths(cD, clip.Clip, false)
+						}
+						return e
+					}
+					gC1, gO1, gC2, gO2, gO3 = clip.PathsD{}, clip.PathsD{}, clip.PathsD{}, clip.PathsD{}, clip.PathsD{}
+					mk().ExecuteOC(ct, fr, &gC1, &gO1)
+					mk().ExecuteWithScaleFunc(ct, fr, &gC2, &gO2, clip.ScalePath64ToPathD)
+					mk().ExecutePolyTreeD(ct, fr, clip.NewPolyTreeD(), &gO3)
+				}) {
+					ctx.Eval(4)
+					c.same("ClipperD.ExecuteOC/closed/"+tag, gC1, wantC)
+					c.same("ClipperD.ExecuteOC/open/"+tag, gO1, wantO)
+					c.same("ClipperD.ExecuteWithScaleFunc/closed+open-subject/"+tag, gC2, wantC)
+					c.same("ClipperD.ExecuteWithScaleFunc/open/"+tag, gO2, wantO)
+					c.same("ClipperD.ExecutePolyTreeD/open/"+tag, gO3, wantO)
+				}
+			}
 		}
 		// engine object, incl. ScaleFunc variants and the tree
 		var gE, gS clip.PathsD
